@@ -203,8 +203,11 @@ class C18(Prop):
         i1, i2 = lang.gen_interval(rng, c), lang.gen_interval(rng, c)
         n = rng.randint(1, 30)
         names = sorted(set(lang.variables(p) + lang.variables(q))) or ['x']
-        return {'law': law, 'kind': kind, 'p': lang.to_jsonable(p), 'q': lang.to_jsonable(q), 'i1': list(i1),
+        case = {'law': law, 'kind': kind, 'p': lang.to_jsonable(p), 'q': lang.to_jsonable(q), 'i1': list(i1),
                 'i2': list(i2), 'data': lang.gen_trace(rng, names, n)}
+        if kind == 'dt_online' and rng.random() < 0.3:
+            case['prelude'] = lang.gen_trace(rng, names, rng.randint(1, 12))    # an earlier run, then reset()
+        return case
 
     def brief(self, case):
         c = dict(case)
@@ -221,12 +224,12 @@ class C18(Prop):
     def shrinkable(self, case):
         return False
 
-    def run_side(self, kind, f, names, data, n):
+    def run_side(self, kind, f, names, data, n, prelude=None):
         text = lang.to_text(f)
         if kind == 'dt_offline':
             return drive.values(drive.dt_offline(text, names, data, n))
         if kind == 'dt_online':
-            return drive.dt_online(text, names, data, n)
+            return drive.dt_online(text, names, data, n, prelude=prelude)
         raise ValueError(kind)
 
     def judge(self, case):
@@ -249,8 +252,10 @@ class C18(Prop):
         rel = max(rel_for(lhs), rel_for(rhs))
         v.info['law:%s/%s' % (case['law'], kind)] = 1
         try:
-            a = self.run_side(kind, lhs, names, data, n)
-            b = self.run_side(kind, rhs, names, data, n)
+            a = self.run_side(kind, lhs, names, data, n, case.get('prelude'))
+            b = self.run_side(kind, rhs, names, data, n, case.get('prelude'))
+            if case.get('prelude'):
+                v.info['class:after-reset'] = 1
         except Exception as e:
             v.bad('raises:' + type(e).__name__, '%s | %s (%s): raised %s: %s' % (
                 lang.to_text(lhs), lang.to_text(rhs), kind, type(e).__name__, e))
